@@ -43,6 +43,7 @@ KeySet ==
     [] KeySetName = "ab"    -> {<<97>>, <<98>>}
     [] KeySetName = "nest"  -> {<<97>>, <<100, 47, 120>>, <<100, 47, 121>>}     \* a, d/x, d/y
     [] KeySetName = "nest2" -> {<<97>>, <<100, 47, 120>>}                       \* a, d/x
+    [] KeySetName = "coll"  -> {<<100, 47, 120>>, <<100, 95, 120>>, <<100, 92, 120>>}            \* d/x, d_x, d\x
     [] KeySetName = "list"  -> {<<97>>, <<97, 47, 49>>, <<97, 45, 98>>, <<98>>} \* a, a/1, a-b, b
 
 Cfg ==
